@@ -38,8 +38,13 @@ type cfg struct {
 // never touched again (so every segment keeps a live document when a,b,c are obsoleted — a segment
 // that loses ALL its documents drops out of the root and takes a different code path); internal w<w>=j.
 func fillBatch(b *bleve.Batch, w, j int) {
-	doc := func() map[string]interface{} {
-		return map[string]interface{}{"w": fmt.Sprintf("w%d", w), "seq": strconv.Itoa(j)}
+	// a struct, not a map: bleve walks map documents in Go's random map order
+	type wdoc struct {
+		W   string `json:"w"`
+		Seq string `json:"seq"`
+	}
+	doc := func() *wdoc {
+		return &wdoc{W: fmt.Sprintf("w%d", w), Seq: strconv.Itoa(j)}
 	}
 	b.Index(fmt.Sprintf("%d.a", w), doc())
 	b.Index(fmt.Sprintf("%d.b", w), doc())
@@ -49,7 +54,7 @@ func fillBatch(b *bleve.Batch, w, j int) {
 		b.Delete(fmt.Sprintf("%d.c", w))
 	}
 	dd := doc()
-	dd["seq"] = "d" + strconv.Itoa(j)
+	dd.Seq = "d" + strconv.Itoa(j)
 	b.Index(fmt.Sprintf("%d.d%d", w, j), dd)
 	b.SetInternal([]byte(fmt.Sprintf("w%d", w)), []byte(strconv.Itoa(j)))
 }
